@@ -1949,7 +1949,7 @@ class Path:
     def ex_AnnAssign(self, st, fr):
         if st.value is not None:
             v = self.ev(st.value, fr)
-            if isinstance(v, (dict, set)) and not v:   # absnodes: typed empty local (option local_types)
+            if isinstance(v, (dict, set, list)) and not v:   # absnodes: typed empty local (option local_types)
                 from . import absnodes
                 v = absnodes.typed_empty_local(self, st, v, fr)
             self.assign(st.target, v, fr)
